@@ -336,6 +336,7 @@ def run(res, tier):
     c02_bits.cxx_classes(res, tier)
     # members libclang reports no offset for (anonymous structs), under every attribute class
     c02_bits.anon_members(res, tier, decls, attr_class,
-                          lambda d: d["pack"] > 0 and any(c == "l" for c in d["codes"]))
+                          lambda d: (d["pack"] > 0 and any(c == "l" for c in d["codes"])) or
+                          ((d["pack"] > 0 or d["packed"]) and (d["aligned"] > 0 or d["malign"] > 0)))
     trace_corpus(res, tier)
     res.cov["exhaustive"] = False
